@@ -429,12 +429,14 @@ BUDGET = {
 EVIDENCE = {
     "level": "exploration",
     "rule": (
-        "Seeded scenarios: a table whose stream ids contain characters illegal in CF names / leading digits / leading underscores, a "
-        "config of 1-3 contexts (disjoint or absent windows) with 0-2 fault entries, run through PandasStream or NumpyStream straight "
-        "into PandasStore; then a seeded history of 1-5 operations on that one store: save with every write_data/write_axes "
-        "combination and include/exclude lists over {stream ids, test names, function objects, absent names}, compute_aggregate in "
-        "any position. Non-trivial: history of at least two operations. Distinct: distinct (digest of all frames, digest of the "
-        "operation history)."
+        "Seeded scenarios, each in its own forked process: a table whose stream ids contain characters illegal in CF names / leading "
+        "digits / leading underscores / non-ASCII letters and digits (plus float32 / int32 / int64 columns and, sometimes, a stream named "
+        "like an axis), a config of 1-3 contexts (disjoint or absent windows) with 0-2 fault entries, run through PandasStream or "
+        "NumpyStream straight into PandasStore - one test per ContextResult, or all tests of a variable grouped into one; then a seeded "
+        "history of 1-7 operations on that one store: save with every write_data/write_axes combination and include/exclude lists over "
+        "{stream ids, test names, function objects, absent names}, repeated saves, the same selection with the other write_data setting, "
+        "compute_aggregate under several names in any position, a second store with its own axis names. Non-trivial: history of at least "
+        "two operations. Distinct: distinct (digest of all frames, digest of the operation history). "
     ),
     "real": ["ioos_qc.stores.PandasStore (save, compute_aggregate)", "ioos_qc.results.collect_results", "ioos_qc.utils.cf_safe_name", "PandasStream / NumpyStream / Config", "pandas"],
     "stub": ["dirty allocator wrappers", "fault / probe QC functions", "operation-history driver"],
